@@ -94,7 +94,13 @@ func NBTFieldMuts(doc []byte, layout []rn.Region, perKind int) []Mut {
 				f = "elemid"
 			}
 			other := uint32(r.Tag%12 + 1)
-			for _, v := range []uint32{0, 13, 0x1f, 0x78, 0xff, other} {
+			// besides plain unknown ids: ids that become VALID when only their low bits are looked at (a lookup table
+			// indexed with id&0x0f, a switch on a truncated value) - the true id, or another valid one, with high bits set
+			hi := uint32((r.Off*7)%15+1) << 4
+			for _, v := range []uint32{0, 13, 0x1f, 0x78, 0xff, other, uint32(r.Tag) | 0x10, uint32(r.Tag) | 0x80, uint32(r.Tag)&0x0f | hi, other | hi, 14, 16} {
+				if v == uint32(r.Tag) {
+					continue
+				}
 				out = append(out, Mut{Kind: "setbyte", Off: r.Off, Val: v, Field: f})
 			}
 		}
